@@ -254,4 +254,30 @@ theorem wakePass_out (fuel : Nat) (db : DB) (k : Key) (out : List Reply) :
 theorem wake_out (db : DB) (k : Key) (out : List Reply) : ∃ more, (wake db k out).2.2 = out ++ more :=
   wakePass_out _ db k out
 
+/-- a wake pass only appends SUCCED replies (grants) -/
+theorem wakePass_out_succed (fuel : Nat) (db : DB) (k : Key) (out : List Reply) :
+    ∃ more, (wakePass fuel db k out).2.2 = out ++ more ∧ ∀ r ∈ more, r.result = RESULT_SUCCED := by
+  induction fuel generalizing db k out with
+  | zero => unfold wakePass; split <;> exact ⟨[], by simp, by simp⟩
+  | succ n ih =>
+    unfold wakePass
+    split
+    · exact ⟨[], by simp, by simp⟩
+    · cases hw : wakeIter db k with
+      | none => simp only []; split <;> exact ⟨[], by simp, by simp⟩
+      | some t =>
+        obtain ⟨db', k', r⟩ := t
+        simp only []
+        obtain ⟨more, hm, hs⟩ := ih db' k' (out ++ [r])
+        obtain ⟨_, _, _, _, _, _, hr⟩ := wakeIter_head hw
+        refine ⟨r :: more, by rw [hm]; simp, ?_⟩
+        intro y hy
+        rcases List.mem_cons.mp hy with h1 | h1
+        · rw [h1]; exact hr
+        · exact hs y h1
+
+theorem wake_out_succed (db : DB) (k : Key) (out : List Reply) :
+    ∃ more, (wake db k out).2.2 = out ++ more ∧ ∀ r ∈ more, r.result = RESULT_SUCCED :=
+  wakePass_out_succed _ db k out
+
 end Slock.Engine
